@@ -981,11 +981,14 @@ async fn recycle_history(rng: &mut Rng, srv: &resp::Server) -> usize {
                         "stale" => resp::Reply::Echo(Some("<stale>".into())),
                         // "any other value": garbage, the reply of an argument-less PING, a
                         // number that is not the one sent, the empty string
-                        "wrong" => match rng.below(5) {
+                        "wrong" => match rng.below(7) {
                             0 => resp::Reply::Echo(Some("zzz".into())),
                             1 => resp::Reply::Pong,
                             2 => resp::Reply::Echo(Some("PONG".into())),
                             3 => resp::Reply::Echo(Some("<next>".into())),
+                            // the right number, written differently
+                            4 => resp::Reply::Echo(Some("<padded>".into())),
+                            5 => resp::Reply::Echo(Some("<plus>".into())),
                             _ => resp::Reply::Echo(Some("".into())),
                         },
                         // "an error": an error reply or a nil reply
@@ -1272,6 +1275,8 @@ pub mod resp {
                         Reply::Echo(Some(v)) if v == "<next>" => {
                             Reply::Echo(Some(arg.parse::<u64>().map(|n| (n + 1).to_string()).unwrap_or("y".into())))
                         }
+                        Reply::Echo(Some(v)) if v == "<padded>" => Reply::Echo(Some(format!("0{arg}"))),
+                        Reply::Echo(Some(v)) if v == "<plus>" => Reply::Echo(Some(format!("+{arg}"))),
                         r => r,
                     };
                     st.last_ping = Some(arg.clone());
